@@ -61,7 +61,7 @@ def run_shard(idx, cases, cfg, workdir, fn, imports):
     return parse_results(r.stdout, len(cases))
 
 
-def run_cases(cases, cfg, workdir, fn='check_case', imports='Storage Query World Run', shards=16):
+def run_cases(cases, cfg, workdir, fn='check_case', imports='Storage Query World Borrow Run', shards=16):
     """Returns one string per case: 'None' or 'Some (...)'."""
     os.makedirs(workdir, exist_ok=True)
     if not cases:
